@@ -36,6 +36,21 @@ fn main() {
             }
             println!("; frag={:?} n_peers={}\n{}", frag, g.n_peers, air);
         }
+        Some("rerun") => {
+            // vcheck rerun <replay.json> [n]: execute the single interpreter run stored in a replay file n times
+            let txt = std::fs::read_to_string(&args[2]).expect("replay file");
+            let v: serde_json::Value = serde_json::from_str(&txt).expect("json");
+            let input: vharness::invoke::RunInput = serde_json::from_value(v["detail"]["input"].clone()).expect("detail.input");
+            let n: usize = args.get(3).and_then(|s| s.parse().ok()).unwrap_or(1);
+            std::env::set_var("VCHECK_PANIC_VERBOSE", "1");
+            let h = std::thread::Builder::new().stack_size(vharness::report::STACK).spawn(move || {
+                for i in 0..n {
+                    let o = vharness::invoke::invoke(&input);
+                    println!("run {i}: code={} {}", o.ret_code, vharness::proj::trunc(&o.error_message, 300));
+                }
+            }).unwrap();
+            let _ = h.join();
+        }
         Some("leak") => {
             // vcheck leak <n>: run n honest cases on this thread and print the live heap bytes (diagnostic)
             use vharness::mon::honest::*;
